@@ -116,6 +116,7 @@ struct OpEnumerator
             add(base, T_GROUP, G_SIZE, (int)gi, hend, gl + ".size");
             add(base, T_GROUP, G_EMPTY, (int)gi, hend, gl + ".empty");
             add(base, T_GROUP, G_HEADER, (int)gi, hend, gl + ".get_header");
+            add(base, T_GROUP, G_HEADER_FIELDS, (int)gi, hend, gl + ".get_header.{blockLength,numInGroup} get+set");
             add(base, T_GROUP, G_RESIZE, (int)gi, hend, gl + ".resize(same)", cnt);
             add(base, T_GROUP, G_CLEAR, (int)gi, hend, gl + ".clear");
             add(base, T_GROUP, G_FILL_HEADER, (int)gi, hend, gl + ".fill_group_header", cnt);
@@ -173,6 +174,7 @@ struct OpEnumerator
         const u64 N = f.bytes.size();
         add(base, T_MESSAGE, M_HEADER, 0, sh.msg_header.size, "get_header");
         add(base, T_MESSAGE, M_FILL_HEADER, 0, sh.msg_header.size, "fill_message_header");
+        add(base, T_MESSAGE, M_HEADER_FIELDS, 0, sh.msg_header.size, "get_header(m).{blockLength,templateId,schemaId,version} get+set");
         add(base, T_MESSAGE, M_SIZE_BYTES_CURSOR, 0, N, "cursor_traversal+size_bytes(m,c)");
         add(base, T_MESSAGE, M_VISIT_FULL, 0, N, "visit(full depth)");
         level(f.root, {}, sh.levels[(std::size_t)f.root.level].name);
@@ -291,7 +293,7 @@ inline Result exec_c10(const Plan& plan)
     std::vector<std::vector<Decision>> scripts;
     {
         const u64 wseed = (u64)plan.geti("walks", 1);
-        for(int v = 0; v < 5; v++)
+        for(int v = 0; v < 7; v++)
         {
             sim::Rng r(wseed * 131 + (u64)v);
             std::vector<Decision> raw;
@@ -304,17 +306,19 @@ inline Result exec_c10(const Plan& plan)
                 case 1: d.wrapper = W_SKIP; break;
                 case 2: d.wrapper = i % 2 ? W_PLAIN : W_DONT_MOVE; break;
                 case 3: d.wrapper = i % 2 ? W_INIT : W_INIT_DONT_MOVE; break;
+                case 5: d.wrapper = W_PLAIN; break;
+                case 6: d.wrapper = i % 3 == 0 ? W_DONT_MOVE : W_INIT; break;
                 default: d.wrapper = (int)r.below(5); break;
                 }
                 d.split = v == 4 ? (int)r.below(4) - 1 : -1;
-                d.write = v == 4 && r.chance(1, 4);
+                d.write = (v == 4 && r.chance(1, 4)) || v >= 5; // 5, 6: every scalar through its cursor setter
                 raw.push_back(d);
             }
             CursorModel cm{sh, f, raw, false};
             cm.run();
             scripts.push_back(cm.script);
         }
-        static const char* names[] = {"cursor walk (init)", "cursor walk (skip)", "cursor walk (dont_move+plain)", "cursor walk (init_dont_move+init)", "cursor walk (seeded mix, subranges, setters)"};
+        static const char* names[] = {"cursor walk (init)", "cursor walk (skip)", "cursor walk (dont_move+plain)", "cursor walk (init_dont_move+init)", "cursor walk (seeded mix, subranges, setters)", "cursor walk (plain, cursor setters)", "cursor walk (dont_move/init, cursor setters)"};
         for(std::size_t v = 0; v < scripts.size(); v++)
         {
             OpSpec s;
